@@ -32,7 +32,7 @@ var c03Shapes = func() [][]int {
 
 var c03MustDT = []ref.DType{ref.F32, ref.F64, ref.I32, ref.I64}
 
-const c03Sampled = 250000
+const c03Sampled = 900000
 
 func c03ExhaustiveCount() int {
 	return len(c03Shapes) * len(c03Shapes) * len(ref.BinaryOps) * len(c03MustDT)
@@ -45,7 +45,7 @@ func init() {
 		Cases: func(tier string) int {
 			switch tier {
 			case "thorough":
-				return c03ExhaustiveCount() + 1000000
+				return c03ExhaustiveCount() + 6000000
 			case "race":
 				return 60000
 			}
